@@ -3,9 +3,9 @@ T = {
  "C01a": ("C01", r"insert_upd0_n2_w_oversize$"),
  "C01b": ("C01", r"s_iterfilter0_before_watermark_no_expiry$"),
  "C03a": ("C03", r"purge_tti_on_deadline_w$"),
- "C03b": ("C03", None, "needs handle_upsert's admit path on the sync cache (no verdict within caps)"),
+ "C03b": ("C03", r"l_upsert_admit_fits_unbounded$"),
  "C04a": ("C04", r"insert_new_n2_w_overcap$"),
- "C04b": ("C04", None, "needs handle_upsert's admit path on the sync cache (no verdict within caps)"),
+ "C04b": ("C04", r"l_upsert_admit_fits_cap$"),
  "C05a": ("C05", r"insert_new_ttl_full$"),
  "C05b": ("C05", r"s_k1_is_expired_wo$"),
  "C06a": ("C06", r"insert_new_tti_full$"),
@@ -15,7 +15,7 @@ T = {
  "C10a": ("C10", r"insert_new_n2_w_admit$"),
  "C10b": ("C10", r"l_upsert_update_n1$"),
  "C12a": ("C12", r"insert_upd0_n2_full$"),
- "C12b": ("C12", None, "needs evict_lru_entries on the sync cache (no verdict within caps)"),
+ "C12b": ("C12", r"l_evict_lru_exact_n2$"),
  "C08a": ("C08", r"dq_pop_2$"),
  "C08b": ("C08", r"s_eviction_counters_never_overflow$"),
  "C09a": ("C09", None, "self-deadlock on a DashMap shard lock: the container model has no locks and no schedules are explored"),
@@ -23,7 +23,7 @@ T = {
  "C11a": ("C11", r"insert_new_ttl_full$"),
  "C11b": ("C11", r"invalidate_of_a_pending_insert_queues_its_removal$"),
  "C13a": ("C13", r"insert_new_n2_w_no_prefix$"),
- "C13b": ("C13", None, "needs handle_upsert's admission path on the sync cache (no verdict within caps)"),
+ "C13b": ("C13", None, "needs the TinyLFU admission path of handle_upsert on the sync cache (> 40 GB)"),
  "C14a": ("C14", r"l3_n[12]$"),
  "C14b": ("C14", r"get0_ttl_on_deadline$"),
  "C15a": ("C15", r"contains0_tti_1ns_before$"),
